@@ -7,7 +7,7 @@
 # afterwards; the log is kept in /verif/scratch/mut_<ID>_<check>.log.
 ID="$1"; CHK="$2"; TIER="${3:-quick}"
 VERIF="$(cd "$(dirname "$0")/.." && pwd)"
-WT="/tmp/mt-$ID-$CHK"; VC="/tmp/mv-$ID-$CHK"
+WT="/tmp/mt-$ID-$CHK-$TIER-$$"; VC="/tmp/mv-$ID-$CHK-$TIER-$$"
 cleanup() { git -C /repo worktree remove --force "$WT" >/dev/null 2>&1; rm -rf "$WT" "$VC"; }
 trap cleanup EXIT
 cleanup
